@@ -74,7 +74,7 @@ def build_cases(mc_cases, tier, rng):
         cases.append(dict(c))
     for c in longs:
         cases.append(dict(c, ctxs=["ret", "cat", "from"]))
-    sp = spellings()
+    sp = spellings() + [c["text"] for c in mc_cases if c["kind"] == "parse"]      # + MC_Literals!NumberSpellings
     for t in sp:
         cases.append({"kind": "parse", "fam": "spelling", "text": t})
     srcs = [c for c in mc_cases if c["kind"] == "src"]
@@ -147,8 +147,11 @@ def run_cases(rep, cases, label, chunk=8000):
                 else:
                     st["spellings_judged"] += 1
                 if not v["ok"]:
-                    st["by_cause"]["parsed_value"] = st["by_cause"].get("parsed_value", 0) + 1
-                    rep.violation({"cause": "parsed_value", "text": o["text"][:80], "node": o["node"], "got_hi": o["hi"], "got_lo": o["lo"]},
+                    # value_ok: the parser gave the spelling its value; then what convert_luau_number wrote does not read back as it
+                    cause = "converted_value" if v["value_ok"] else "parsed_value"
+                    st["by_cause"][cause] = st["by_cause"].get(cause, 0) + 1
+                    rep.violation({"cause": cause, "text": o["text"][:80], "node": o["node"], "got_hi": o["hi"], "got_lo": o["lo"],
+                                   "written": sorted(set(x["out"].strip()[:60] for x in o.get("conv", [])))[:4] if cause == "converted_value" else []},
                                   {"kind": "parse", "text": o["text"], "fam": "spelling"})
                 continue
             st["strings_judged" if o["kind"] == "str" else "numbers_judged"] += 1
